@@ -12,6 +12,21 @@ CHECKS = {
          "All single-unit message types (every field kind x cardinality) with full boundary alphabets, all unordered pairs of units with reduced alphabets and a recursive type to depth 2/3, each built by 4 routes and pushed through bytes/parse/bytes; equality, oneof selection, None-ness, nested presence and byte stability are checked on every case. Exhaustive within the stated alphabets, silent about values outside them.",
          "trusts the abstract value model in vf/core/absval.py (cross-checked on every case against google.protobuf) and the value alphabets being branch-complete for the per-field interpreter",
          "DESIGN.md §4 C01"),
+ "C02": ("model_checking",
+         "bounded-exhaustive enumeration of (type, value) states in both directions against google.protobuf, plus breadth-first enumeration of every re-encoding reachable with <=D spec-level rewrite operators (legality decided by the reference decoder)",
+         "Every universe case is encoded by betterproto and decoded by the reference and vice versa; for every single-unit type and value every alternative encoding within D rewrite operators (all permutations, packed/unpacked, every 2/3-way chunk split, mixed, non-minimal tag/length/value varints, duplicated singular scalars, earlier oneof siblings, unknown records at every gap, the same inside nested messages and map entries) that the reference accepts as the same message is decoded by betterproto and compared.",
+         "trusts google.protobuf (upb) as the reference decoder and the rewrite operators' completeness for the property's list of legal alternatives",
+         "DESIGN.md §4 C02"),
+ "C09": ("model_checking",
+         "bounded-exhaustive small-scope enumeration of (type, value, route) states; len/dump/delimited-dump edges compared with bytes() and the wire model's varint",
+         "Same universe as C01 plus messages decoded with unknown fields of every wire type; on every state len(m), dump(), dump(SIZE_DELIMITED) and SerializeToString are compared with bytes(m).",
+         "trusts the wire model's canonical varint (cross-checked against the reference in C16)",
+         "DESIGN.md §4 C09"),
+ "C16": ("model_checking",
+         "exhaustive enumeration of a dense integer range plus every structured boundary integer, and of complete families of decoder byte strings, each compared three-way (wire model, google.protobuf internals, betterproto)",
+         "All integers in a dense window (2^16 negatives .. 2^21, thorough 2^20 .. 2^24), every 2^k+d (k<=64, |d|<=16), byte-pattern values and the rejected domain below -2^63 go through encode/dump/size/decode/load; all byte strings of length <=2, all strings of length <=11 over {01,80,ff}, <=6 over six symbols and all 10-byte tails go through the decoders; every scalar kind x cardinality x boundary value is compared byte-for-byte with the reference encoder.",
+         "the remainder of the 2^64 domain is argued structurally only; the property's 'randomly elsewhere' clause is replaced by the structured sweep (sampling is a different technique family)",
+         "DESIGN.md §4 C16"),
 }
 
 NOT_APPLICABLE_REASON = "check not built yet in this session; see DESIGN.md for the planned bounded-exhaustive exploration"
